@@ -7,6 +7,7 @@ import (
 	"github.com/dgraph-io/badger/v4"
 
 	"github.com/oasisprotocol/oasis-core/go/storage/mkvs/db/api"
+	"github.com/oasisprotocol/oasis-core/go/storage/mkvs/db/api/verifhook"
 	"github.com/oasisprotocol/oasis-core/go/storage/mkvs/node"
 )
 
@@ -67,6 +68,7 @@ func (d *badgerNodeDB) StartMultipartInsert(version uint64) error {
 
 	d.meta.setMultipart(version, multiMeta)
 	d.meta.commit(tx)
+	verifhook.CrashPoint("pathbadger.startMultipart.afterMetaCommit")
 
 	d.multipartVersion = version
 	d.multipartMeta = multiMeta
@@ -149,6 +151,7 @@ func (d *badgerNodeDB) cleanMultipartLocked(removeNodes bool) error {
 	if err := batch.Flush(); err != nil {
 		return err
 	}
+	verifhook.CrashPoint("pathbadger.cleanMultipart.afterBatchFlush")
 
 	metaTx := d.db.NewTransactionAt(tsMetadata, true)
 	defer metaTx.Discard()
